@@ -366,10 +366,8 @@ class ResponseHandler(BaseProtocol, DataQueue[tuple[RawResponseMessage, StreamRe
             # EMPTY_PAYLOAD
             if payload is not EMPTY_PAYLOAD:
                 payload.on_eof(self._drop_timeout)
-            elif not 100 <= message.code < 200 or message.code == 101:
+            else:
                 self._drop_timeout()
-            # else: an interim (1xx) response; the final one is still awaited
-            # and stays under the read timeout re-armed above
 
         if upgraded and tail:
             self.data_received(tail)
